@@ -15,6 +15,8 @@ one() {
   codes=$(echo "$res" | grep -o "^C[0-9]* exit=[0-9]*" | tr '\n' ' ')
   kinds=$(echo "$res" | grep -o "kind=[^ ]*" | sed 's/kind=//; s#/var/tmp/[^ ]*/repo/##' | sort -u | head -5 | tr '\n' ' ')
   echo "$n: $codes"
+  # nothing ran (no disk space, patch does not apply, harness does not compile): keep the recorded result
+  [ -z "$codes" ] && return
   python3 - "$d/meta.json" "$codes" "$kinds" <<'PY'
 import json,sys,re
 p,codes,kinds=sys.argv[1:4]
